@@ -404,12 +404,32 @@ type Stats struct {
 	ForeignEx   []Violation
 	foreignAll  []Violation
 	Promoted    int
+	// StateDependent: tasks whose outcome differed between a warm worker and a
+	// freshly started one (process-global state leaking between executions)
+	StateDependent int
+	Unconfirmed    int
 }
 
 type proc struct {
-	cmd *exec.Cmd
-	in  io.WriteCloser
-	out *bufio.Reader
+	cmd  *exec.Cmd
+	in   io.WriteCloser
+	out  *bufio.Reader
+	exe  string
+	args []string
+	env  []string
+}
+
+// restart replaces the worker process by a fresh one (clean process-global state).
+func (p *proc) restart() error {
+	p.in.Close()
+	p.cmd.Process.Kill()
+	p.cmd.Wait()
+	np, err := startProc(p.exe, p.args, p.env)
+	if err != nil {
+		return err
+	}
+	*p = *np
+	return nil
 }
 
 func startProc(exe string, args []string, env []string) (*proc, error) {
@@ -427,7 +447,7 @@ func startProc(exe string, args []string, env []string) (*proc, error) {
 	if err := cmd.Start(); err != nil {
 		return nil, err
 	}
-	return &proc{cmd: cmd, in: in, out: bufio.NewReaderSize(out, 1<<20)}, nil
+	return &proc{cmd: cmd, in: in, out: bufio.NewReaderSize(out, 1<<20), exe: exe, args: args, env: env}, nil
 }
 
 // TaskTimeout: real-time limit for one task (a path replay plus one expansion
@@ -540,6 +560,22 @@ func Explore(sc *Scenario, exe string, workerArgs []string, nWorkers int, deadli
 						continue
 					}
 					res, err := p.do(Task{Scen: sc.ID, Path: it.path, Key: it.key, Drain: last})
+					if err == nil && (strings.HasPrefix(res.Err, "DIVERGED") || strings.HasPrefix(res.Err, "SELFTEST")) {
+						// the same history behaved differently in this (warm) worker than
+						// where it was discovered: retry once in a fresh process
+						if rerr := p.restart(); rerr == nil {
+							res, err = p.do(Task{Scen: sc.ID, Path: it.path, Key: "", Drain: last})
+						}
+						mu.Lock()
+						st.StateDependent++
+						mu.Unlock()
+						if err == nil && res.Err != "" {
+							mu.Lock()
+							st.Exhaustive = false
+							mu.Unlock()
+							continue
+						}
+					}
 					mu.Lock()
 					if err != nil {
 						fatal = err
@@ -663,6 +699,46 @@ func Explore(sc *Scenario, exe string, workerArgs []string, nWorkers int, deadli
 	}
 	st.States = len(seen) + 1
 	st.Wall = time.Since(t0).Seconds()
+	if fatal == nil && len(viol) > 0 && st.StateDependent > 0 {
+		// something leaks between executions: only keep what reproduces from a cold start
+		sort.Slice(viol, func(i, j int) bool { return len(viol[i].Path) < len(viol[j].Path) })
+		var kept []Violation
+		for i, v := range viol {
+			if i >= 25 {
+				break
+			}
+			if procs[0].restart() != nil {
+				break
+			}
+			path := v.Path
+			if n := len(path); n > 0 && path[n-1] == "<drain>" {
+				path = path[:n-1]
+			}
+			res, err := procs[0].do(Task{Scen: sc.ID, Path: path, PathOnly: true})
+			if err != nil || res.Err != "" {
+				continue
+			}
+			ok := false
+			for _, s := range res.Succ {
+				for _, h := range s.Hits {
+					if h.Rule == v.Hit.Rule {
+						ok = true
+					}
+				}
+			}
+			for _, h := range res.DrainHits {
+				if h.Rule == v.Hit.Rule {
+					ok = true
+				}
+			}
+			if ok {
+				kept = append(kept, v)
+			} else {
+				st.Unconfirmed++
+			}
+		}
+		viol = kept
+	}
 	sort.Slice(viol, func(i, j int) bool {
 		if len(viol[i].Path) != len(viol[j].Path) {
 			return len(viol[i].Path) < len(viol[j].Path)
